@@ -117,6 +117,7 @@ pub struct HuffMachine<B: Sym> {
 const OP_MERGE: u32 = 5000;
 const OP_CLEAR: u32 = 5001;
 const OP_CLONE_FROM: u32 = 5005; // clone_from into a coded container built from other statistics
+const OP_CLONE: u32 = 5006; // replace the container by its clone()
 const OP_MERGE2: u32 = 5004; // merge_regions([self, a raw region holding each profile symbol once])
 const OP_UNKNOWN: u32 = 5002; // push an item with an out-of-statistics symbol
 const OP_UNKNOWN2: u32 = 5003; // known symbol followed by an unknown one
@@ -483,6 +484,7 @@ impl<B: Sym> Machine for HuffMachine<B> {
         }
         if !self.cloned {
             v.push(OP_CLONE_FROM);
+            v.push(OP_CLONE);
         }
         v
     }
@@ -490,6 +492,7 @@ impl<B: Sym> Machine for HuffMachine<B> {
         match op {
             OP_MERGE => "replace by merge_regions([self]) (next generation)".into(),
             OP_MERGE2 => "replace by merge_regions([self, raw region holding every profile symbol once])".into(),
+            OP_CLONE => "replace by clone()".into(),
             OP_CLONE_FROM => "dst := coded container built from reversed statistics, holding items; dst.clone_from(self); continue with dst".into(),
             OP_CLEAR => "clear()".into(),
             OP_UNKNOWN => format!("push([{:?}]) (symbol outside the statistics)", self.unknown_symbol()),
@@ -539,6 +542,17 @@ impl<B: Sym> Machine for HuffMachine<B> {
                     }
                     (Err(p), _) => Step::Violation(format!("merge_regions([self]) panicked: {p}")),
                     (_, Err(e)) => Step::Violation(e),
+                }
+            }
+            OP_CLONE => {
+                self.cloned = true;
+                let live = &self.g.c;
+                match guard(|| live.clone()) {
+                    Ok(c) => {
+                        self.g.c = c;
+                        Step::Ok
+                    }
+                    Err(p) => Step::Violation(format!("clone() panicked: {p}")),
                 }
             }
             OP_CLONE_FROM => {
